@@ -57,6 +57,7 @@ structure Sys where
   committed : Array Nat := #[]
   allocs : Nat := 0
   frees : Nat := 0
+  tterm : Nat := 0
 
 def dummyEv : Event := { dest := 0, t := 0, type := 0, payload := [] }
 
@@ -248,10 +249,10 @@ def onDequeue (s : Sys) (r m : Nat) : Sys :=
 
 def parStep (s : Sys) (toks : List String) : Sys × String :=
   match toks with
-  | ["model", seed, lps, types, fan, thr, spread, rng, mem, t0, threads, _ckpt, _tterm] =>
+  | ["model", seed, lps, types, fan, thr, spread, rng, mem, t0, threads, _ckpt, tterm] =>
     let P : Params := ⟨UInt64.ofNat (nat! seed), nat! lps, nat! types, nat! fan, nat! thr, nat! spread,
       nat! rng != 0, nat! mem != 0, nat! t0 != 0⟩
-    ({ s with P := P, lps := Array.replicate (nat! lps) { st := {} },
+    ({ s with P := P, tterm := nat! tterm, lps := Array.replicate (nat! lps) { st := {} },
               ths := Array.replicate (nat! threads) {},
               rng0 := Array.replicate (nat! lps) ⟨0, 0, 0, 0⟩,
               committed := Array.replicate (nat! lps) 0 }, "model ok")
@@ -329,7 +330,7 @@ def parStep (s : Sys) (toks : List String) : Sys × String :=
     let lp := nat! lp
     let l := s.lp lp
     let s := s.withSeq
-    let sq := match s.seq with
+    let sq := if s.tterm ≠ 0 then "-" else match s.seq with
       | some (_, sts) => hx (digest (sts.getD lp {}))
       | none => "?"
     (s, s!"finilp lp={lp} st={hx (digest l.st)} cnt={l.st.cnt.toNat} seq={sq}")
